@@ -13,3 +13,108 @@ def _(type_var_map: "TVMap", key: "TypeParameter", value: "Type") -> "Bool":
                                                     and implies(X in old(type_var_map),
                                                                 same(type_var_map[X], old(type_var_map)[X])))))
     ensures("unchanged-on-conflict", implies(not result, map_eq(type_var_map, old(type_var_map))))
+
+
+# ---------------------------------------------------------------- unify_types (slice mode: obligations at every binding
+# site and at every return statement)
+bound(k="TypeParameter", v="Type", fac="Any")
+
+
+# immutable_fields: the callees of unify_types (is_subtype, has_type_variables, get_bound_rec, the recursive calls) are queries;
+# that they do not modify existing types is assumed here (C06: the judgement is pure; C07: substitution writes to fresh objects)
+@profile("unify", slice=True, heap_closed=True,
+         immutable_fields="t_constructor,type_args,variance,bound,name,supertypes,type_parameters,value")
+def _():
+    modifies(".*")
+
+
+@family("src.ir.types.Type.get_bound_rec", pure=True)
+def _(self: "Type", factory: "Any") -> "Opt[Type]":
+    """the variable-free bound a type variable must respect (follows variable-to-variable bounds)"""
+    pass
+
+
+@contract("src.ir.types.Variance.__eq__", pure=True)
+def _(self: "Variance", other: "Variance") -> "Bool":
+    requires("same-class", same_class(self, other))
+    ensures("by-value", result == (self.value == other.value))
+
+
+bound(va="Variance", vb="Variance")
+
+
+@ghost
+def VarianceEq(j: "Int") -> "Bool":
+    """== / != between two Variance objects compares their values (Variance.__eq__, proved above): links the symbol the
+    engine uses for `==` on objects to that contract"""
+    axiom("by-value", forall(lambda va, vb: PyEq(va, vb) == (va.value == vb.value), triggers=[PyEq(va, vb)]))
+
+
+@ghost
+def WithinBound(k: "TypeParameter", v: "Type", fac: "Any") -> "Bool":
+    """the type v assigned to the variable k satisfies k's bound: introduction rules only -- the type system answered
+    v.is_subtype(bound) (a subtype in the declarative relation by C06's proved contract) for the declared bound or for
+    its variable-free form get_bound_rec, or k has no bound"""
+    rule("unbounded", forall(lambda k, v, fac: implies(k.bound is None, WithinBound(k, v, fac))))
+    rule("declared", forall(lambda k, v, fac: implies(k.bound is not None and v.is_subtype(k.bound),
+                                                      WithinBound(k, v, fac))))
+    rule("resolved", forall(lambda k, v, fac: implies(
+        k.get_bound_rec(fac) is None or v.is_subtype(k.get_bound_rec(fac)), WithinBound(k, v, fac))))
+    # two type variables: the bound of the assigned variable is below the bound of the pattern variable
+    rule("variable", forall(lambda k, v, fac: implies(
+        isinstance(v, TypeParameter) and v.get_bound_rec(fac) is not None and k.get_bound_rec(fac) is not None
+        and v.get_bound_rec(fac).is_subtype(k.get_bound_rec(fac)), WithinBound(k, v, fac))))
+
+
+@ghost
+def SamePosition(a1: "Type", a2: "Type", x1: "Type", x2: "Type") -> "Bool":
+    """(x1, x2) are the components of the target / pattern argument pair (a1, a2) that are matched against each other: the
+    arguments themselves, or -- only for two use-site projections of the SAME kind -- their bounds"""
+    define((same(x1, a1) and same(x2, a2) and not isinstance(a2, WildCardType))
+           or (isinstance(a1, WildCardType) and isinstance(a2, WildCardType)
+               and cast(a1, "WildCardType").variance.value == cast(a2, "WildCardType").variance.value
+               and same(x1, cast(a1, "WildCardType").bound) and same(x2, cast(a2, "WildCardType").bound)
+               and x1 is not None and x2 is not None))
+
+
+bound(a1="Type", a2="Type", x1="Type", x2="Type")
+
+
+@contract("src.ir.type_utils.unify_types")
+def _(t1: "Type", t2: "Type", factory: "Any", same_type: "Bool") -> "Map[TypeParameter,Type]":
+    use_profile("unify")
+    requires("valid", Valid(t1) and Valid(t2))
+    requires("variance-eq", VarianceEq(0))
+    local(type_var_map="TVMap", t_var="Opt[TypeParameter]", t_arg1="Type", t_arg2="Type", t_arg="Type", i="Int",
+          res="Map[TypeParameter,Type]", supertype="Type")
+    # ---- every return statement (a return of an unlisted form is a failed obligation)
+    site_return("{}", "nothing", True)
+    # supertype-matching mode climbs to the last declared supertype of the target
+    site_return("unify_types(supertype, t2, factory, same_type=same_type)", "climbs-the-hierarchy",
+                not same_type and len(t1.supertypes) > 0 and same(supertype, t1.supertypes[len(t1.supertypes) - 1]))
+    # the pattern is a type variable: it is bound to the target, which satisfies its bound
+    site_return("{t2: t1}", "pattern-variable-within-bound",
+                isinstance(t2, TypeParameter) and WithinBound(cast(t2, "TypeParameter"), t1, factory))
+    # two instantiations of the same class: the map filled at the binding sites below
+    site_return("type_var_map", "same-generic-class",
+                isinstance(t1, ParameterizedType) and isinstance(t2, ParameterizedType)
+                and not (cast(t1, "ParameterizedType").t_constructor != cast(t2, "ParameterizedType").t_constructor))
+    # ---- the binding sites inside the argument loop
+    # a pattern variable is bound to the target's component at the SAME position (projections only unwrapped pairwise and
+    # only for equal kinds), and the component satisfies the variable's bound
+    site_call("_update_type_var_map", "binds-the-component-at-the-same-position-within-its-bound", (
+        (t_var is not None and same(arg1, t_var) and 0 <= i and i < len(cast(t1, "ParameterizedType").type_args)
+         and SamePosition(cast(t1, "ParameterizedType").type_args[i], cast(t2, "ParameterizedType").type_args[i], arg2, t_var)
+         and WithinBound(cast(t_var, "TypeParameter"), arg2, factory))
+        # ... or a binding handed up by the recursive call on the components at this position (clause below)
+        or (arg1 in res and same(arg2, res[arg1]))))
+    # recursion only on the components at the same position: target component vs. the pattern component itself, or vs. the
+    # bound of the pattern variable
+    site_call("unify_types", "recursion-on-the-components-at-the-same-position", (
+        (same(arg0, supertype) and same(arg1, t2))
+        or (0 <= i and i < len(cast(t1, "ParameterizedType").type_args)
+            and SamePosition(cast(t1, "ParameterizedType").type_args[i], cast(t2, "ParameterizedType").type_args[i],
+                             arg0, t_arg2)
+            and (same(arg1, t_arg2) or (t_var is not None and same(t_var, t_arg2)
+                                        and same(arg1, cast(t_var, "TypeParameter").bound))))))
+    site_call("_update_type_var_map", "into-the-result-map", same(arg0, type_var_map))
